@@ -16,6 +16,7 @@ From PowHsm Require Import Proofs.SrcEquivSignProtoM.
 From PowHsm Require Import Proofs.SrcEquivStateM.
 From PowHsm Require Import Proofs.SrcEquivBlockM.
 From PowHsm Require Import Proofs.SrcEquivBlockProtoM.
+From PowHsm Require Import Proofs.SrcEquivHeartbeatM.
 Open Scope N_scope.
 
 (* for every request and every device script, sign answers only codes docs/protocol.md lists for sign plus the generic ones (closed check on the generated tables vs the generated doc lists) *)
@@ -358,5 +359,25 @@ Theorem C04_source_update_ancestor_handler_is_model :
          srcm_HSM2ProtocolLedger___update_ancestor_block fuel cm init self (of_obj req) w =
          mres rtuple_pv (op_update_ancestor kind req w).
 Proof. exact (@srcm_update_ancestor_handler_ok). Qed.
+
+(* _signer_heartbeat as translated = model handler with its generated ladder, on every world *)
+Theorem C04_source_signer_heartbeat_handler_is_model :
+  forall (kind : dongle_kind) (init : pm pv) (self : pv) (req : obj) 
+           (ud_hex : str) (w : world),
+         init_ok kind init ->
+         jget (s "udValue") req = Some (JStr ud_hex) ->
+         srcm_HSM2ProtocolLedger___signer_heartbeat init self (of_obj req) w =
+         mres rtuple_pv (op_signer_heartbeat kind req w).
+Proof. exact (@srcm_signer_heartbeat_handler_ok). Qed.
+
+(* _ui_heartbeat (mode dance included) likewise *)
+Theorem C04_source_ui_heartbeat_handler_is_model :
+  forall (kind : dongle_kind) (init : pm pv) (self : pv) (req : obj) 
+           (ud_hex : str) (w : world),
+         init_ok kind init ->
+         jget (s "udValue") req = Some (JStr ud_hex) ->
+         srcm_HSM2ProtocolLedger___ui_heartbeat init self (of_obj req) w =
+         mres rtuple_pv (op_ui_heartbeat kind req w).
+Proof. exact (@srcm_ui_heartbeat_handler_ok). Qed.
 
 Example C04_nonvacuous : True. Proof. exact I. Qed. (* concrete runs closed by vm_compute in Proofs/C04.v: blockchainState on Status 0x6B87 / silent device / bad opcode / 0x6F00 answers -905; sign on ERR_SIGN_INVALID_PATH answers -103; ex_error_result_escapes_* exhibit the reconnection-bring-up observation recorded in DESIGN.md *)
